@@ -167,15 +167,16 @@ pub fn step(af: &mut AAFramework<usize>, m: &mut Model, kinds: u32) {
     }
 }
 
-/// `K` arbitrary operations from an arbitrary `PRE`-operation prefix; the comparison runs after every step.
+/// `K` arbitrary operations on an empty store; every observable is compared with the set model at the end (the
+/// intermediate states are the final states of the shorter histories, which have their own harnesses), the error
+/// behaviour of each operation is checked when it is applied.
 pub fn history<const K: usize>() {
     let mut af: AAFramework<usize> = AAFramework::default();
     let mut m = Model::new();
-    compare(&af, &m);
     for _ in 0..K {
         step(&mut af, &mut m, 4);
-        compare(&af, &m);
     }
+    compare(&af, &m);
     reached!(m.n_atts() > 0, "a history with a live attack at the end");
     reached!(m.next_id > m.n_args(), "a history with a removed argument");
     std::mem::forget(af);
